@@ -418,6 +418,50 @@ func checkC11(c *Check) {
 			if !closes || len(fn.Params) != 2 || fn.Params[1].Type().String() != "error" {
 				continue
 			}
+			// the error is recorded before (and whenever) 'done' is closed: a store of the error parameter into the
+			// receiver's error field dominates the close
+			for _, af := range append([]*ssa.Function{fn}, fn.AnonFuncs...) {
+				for _, ci := range callInstrs(af) {
+					b, ok := ci.Common().Value.(*ssa.Builtin)
+					if !ok || b.Name() != "close" || !strings.HasSuffix(describe(ci.Common().Args[0]), ".done") {
+						continue
+					}
+					stored := false
+					for _, bb := range af.Blocks {
+						for _, in := range bb.Instrs {
+							st, ok := in.(*ssa.Store)
+							if !ok || st.Val.Type().String() != "error" {
+								continue
+							}
+							if _, isField := st.Addr.(*ssa.FieldAddr); !isField {
+								continue
+							}
+							isParam := st.Val == ssa.Value(fn.Params[1])
+							if u, ok := st.Val.(*ssa.UnOp); ok {
+								if fv, ok := u.X.(*ssa.FreeVar); ok {
+									if site, ok := closureSiteOf(fv).(*ssa.Alloc); ok && site != nil && site.Referrers() != nil {
+										for _, r := range *site.Referrers() {
+											if s2, ok := r.(*ssa.Store); ok && s2.Val == ssa.Value(fn.Params[1]) {
+												isParam = true
+											}
+										}
+									}
+								}
+							}
+							if fv, ok := st.Val.(*ssa.FreeVar); ok {
+								if closureSiteOf(fv) == ssa.Value(fn.Params[1]) {
+									isParam = true
+								}
+							}
+							if isParam && dominatesInstr(st, ci) {
+								stored = true
+							}
+						}
+					}
+					c.Cond(stored, "5/destroy", fmt.Sprintf("container.(%s).%s:records-error", side, fn.Name()), p.Pos(ci.Pos()),
+						"the error is recorded on every path that closes 'done'", "'done' is closed on a path on which the error was not recorded: whoever is woken by the closed channel reads a nil error and takes the lost connection for success (a gated launch for the go-ahead)")
+				}
+			}
 			for i, cs := range staticCallSites(fn) {
 				arg := cs.Common().Args[1]
 				cfn := cs.Parent()
@@ -457,7 +501,7 @@ func checkC11(c *Check) {
 		}
 	}
 	checkDestroyKillsAndReaps(c, "5/destroy")
-	c.Expect("5/destroy", 10)
+	c.Expect("5/destroy", 12)
 
 	// a cancelled run comes back: the container's handler and its wait goroutine cannot block on each other (C10.9)
 	importObs(c, "C10", "C10.9/no-circular-wait", "6/cancel-returns", nil)
